@@ -4,6 +4,8 @@ import json
 from pathlib import Path
 from typing import Union
 
+import numpy as np
+
 from physt.io.util import create_from_dict
 from physt.io.version import CURRENT_VERSION
 from physt.types import HistogramBase, HistogramCollection
@@ -13,6 +15,13 @@ COMPATIBLE_VERSION = "0.3.20"
 
 COLLECTION_COMPATIBLE_VERSION = "0.4.5"
 """The oldest version of physt that should be able to read the stored histogram collections."""
+
+
+def _serialize_extended_precision(value):
+    """Numbers of a float128 histogram do not fit a JSON number: write their exact decimal text."""
+    if isinstance(value, np.floating):
+        return str(value)
+    raise TypeError(f"Object of type {type(value).__name__} is not JSON serializable")
 
 
 def save_json(
@@ -42,6 +51,7 @@ def save_json(
     else:
         raise TypeError(f"Cannot save unknown type: {type(histogram)}")
 
+    kwargs.setdefault("default", _serialize_extended_precision)
     text = json.dumps(data, **kwargs)
     if path:
         with open(path, "w", encoding="utf-8") as f:
